@@ -28,7 +28,7 @@ PROPS = {
             "'every request completes exactly once -- with its reply, a timeout or a send error -- and afterwards nothing of it remains in the pending tables, whatever the interleaving': the timeout / cleanup paths (send_request's removal after the wait, wait_for_response, sweep_expired_operations) are async code with awaits between the steps; no interleaving is explored",
             "the cap on pending DHT operations and the DhtCoreEngine pending_requests LRU (10_000)",
             "that handle_dht_response / the /rr/ branch are the only places that complete a pending request (call-graph argument, not a contract)",
-            "no native failing-input search exists for this unit (the functions need a live DhtNetworkManager / a spawned receive loop): a failed obligation is reported with no-failing-input-found",
+            "the native failing-input search covers handle_dht_response only (a real manager on a local transport bound to port 0); the /rr/ branch and the registration block sit inside a spawned receive loop / an async send path and have no search: a failed obligation there is reported with no-failing-input-found",
         ],
         "explanation": "Verus proves, on three critical sections outlined verbatim from handle_dht_response, the /rr/ reply branch of the receive loop and send_request: a reply completes a pending request only if it carries that request's id and comes from the contacted / expected peer (and, for DHT RPCs, carries a result); the waiting sender is consumed at most once; no other pending entry is touched; registration is refused at the cap of 256 and leaves nothing behind.",
         "jobs": {"quick": 2, "thorough": 2},
@@ -78,13 +78,13 @@ PROPS = {
         "jobs": {"quick": 6, "thorough": 6},
     },
     "C16": {
-        "verus_units": ["live", "evict", "select"],
+        "verus_units": ["live", "evict", "select", "bucket"],
         "trusted": COMMON_TRUSTED,
         "assumptions": [
             "fewer than 2^32 consecutive failures per peer (u32 counter)",
         ],
         "clauses_not_decided": [
-            "that DhtCoreEngine::evict_node / handle_node_failure call remove_node, and hence 'appears in no closest-node answer until added again' (async engine; the routing-table side is C02's remove_node contract)",
+            "'appears in no closest-node answer until it is added again' is decided at the routing table (unit bucket: the critical sections of evict_node / handle_node_failure remove the peer and nothing else; find_closest_nodes answers only listed peers); the merge with connected peers in DhtNetworkManager::find_closest_nodes_local is async and not decided",
             "ranking clauses of the selector (closer first at equal trust, more trusted first at equal distance): not proved; exercised only by the native bounded search, which is not counted as evidence",
             "selection when trust selection is disabled (engine-level async select_query_peers)",
         ],
@@ -115,11 +115,11 @@ PROPS = {
             "sequential semantics: the enforcer is used behind one lock",
         ],
         "clauses_not_decided": [
-            "slot return when the routing table drops a node, and the partial-failure path of DhtCoreEngine::add_node (async engine; known from reading: slots are not returned there)",
+            "slot return when the routing table drops a node (DhtCoreEngine::evict_node / handle_node_failure never touch the enforcers; known from reading: slots are NOT returned on those paths -- no contract on those functions can even state it, so this stays undecided and is recorded in DESIGN 0.6 as an open observation, not as a finding of a check)",
             "whether the connecting-peer path applies the gate at all (address string rendering, C19)",
             "BootstrapManager::add_peer (async, ant-quic cache)",
         ],
-        "explanation": "Verus proves, on the mechanically extracted text of can_accept_node/add_node/remove_node/can_accept_ipv4/add_ipv4/remove_ipv4/*_unified/set_network_size, for every counter state (unbounded maps): admitted iff every level is below its cap (halved, min 1, for hosting/VPN; IPv4 caps scaled by the network-size rule); add counts each level exactly once and touches no other key of any map, or consumes nothing; remove returns each slot and touches nothing else. Lemmas over those contracts give the history-level claims: caps hold after every admission/removal (induction step), remove undoes add. Kani proves the f64 per-IP limit contract Verus assumes and the prefix extraction.",
+        "explanation": "Verus also proves, on the sequential body of DhtCoreEngine::add_node (await erasure: every await is a lock acquisition), that an admission refused by a later step (region cap, full k-bucket) leaves the IP diversity counters and the per-region counters as they were. Verus proves, on the mechanically extracted text of can_accept_node/add_node/remove_node/can_accept_ipv4/add_ipv4/remove_ipv4/*_unified/set_network_size, for every counter state (unbounded maps): admitted iff every level is below its cap (halved, min 1, for hosting/VPN; IPv4 caps scaled by the network-size rule); add counts each level exactly once and touches no other key of any map, or consumes nothing; remove returns each slot and touches nothing else. Lemmas over those contracts give the history-level claims: caps hold after every admission/removal (induction step), remove undoes add. Kani proves the f64 per-IP limit contract Verus assumes and the prefix extraction.",
         "jobs": {"quick": 8, "thorough": 8},
     },
     "C15": {
